@@ -777,7 +777,8 @@ func (g *SummaryGraph) addBoundVarEdge(mark MarkWithAccessPath, cond *ConditionI
 func (g *SummaryGraph) addReturnEdge(mark MarkWithAccessPath, cond *ConditionInfo, retInstr ssa.Instruction,
 	tupleIndex int) {
 
-	if tupleIndex < 0 || tupleIndex > len(g.Returns) {
+	// the index must be a position in the tuple returned by retInstr (not related to the number of return instructions)
+	if tupleIndex < 0 || tupleIndex >= len(g.Returns[retInstr]) {
 		return
 	}
 
